@@ -39,6 +39,40 @@ func TestC47_SignVerify(t *testing.T) {
 		if ok, err, _ := vVerify(ver, sig, hash); !ok || err != nil {
 			t.Fatalf("%s", vkit.Violation("C47", "valid-signature-rejected", "%s: genuine signature does not verify under its public key (ok=%v err=%v)", name, ok, err))
 		}
+		// what the node may have done with the same strings before it is asked again: the signature has been through
+		// a batched check (first or last of a batch with another valid signature), once or twice; the verdict on the
+		// genuine signature must not depend on that
+		prior := "none"
+		if name == SignatureSchemeBls0chain {
+			prior = rapid.SampledFrom([]string{"none", "batched-first", "batched-last", "batched-twice", "none"}).Draw(t, "priorUse")
+		}
+		if prior != "none" {
+			h2 := hex.EncodeToString(rapid.SliceOfN(rapid.Byte(), 32, 32).Draw(t, "companionHash"))
+			sig2, _ := other.Sign(h2)
+			ver2, _ := vPublicOnly(name, other.GetPublicKey())
+			rounds := 1
+			if prior == "batched-twice" {
+				rounds = 2
+			}
+			for r := 0; r < rounds; r++ {
+				agg := GetAggregateSignatureScheme(name, 2, 2)
+				var e1, e2 error
+				if prior == "batched-last" {
+					e1 = agg.Aggregate(ver2, 0, sig2, h2)
+					e2 = agg.Aggregate(ver, 1, sig, hash)
+				} else {
+					e1 = agg.Aggregate(ver, 0, sig, hash)
+					e2 = agg.Aggregate(ver2, 1, sig2, h2)
+				}
+				if ok, err := agg.Verify(); e1 != nil || e2 != nil || !ok || err != nil {
+					t.Fatalf("%s", vkit.Violation("C47", "valid-signature-rejected-in-batch", "%s: two genuine signatures fail the batched check (%s, pass %d): %v %v ok=%v err=%v", name, prior, r+1, e1, e2, ok, err))
+				}
+				if ok, err, _ := vVerify(ver, sig, hash); !ok || err != nil {
+					t.Fatalf("%s", vkit.Violation("C47", "valid-signature-rejected-after-batch", "%s: genuine signature no longer verifies under its public key after it went through a batched check (%s, pass %d; ok=%v err=%v)", name, prior, r+1, ok, err))
+				}
+			}
+		}
+		st.Class("prior_use/" + prior)
 		st.Case()
 		// --- one tampering
 		kind := rapid.SampledFrom([]string{"sig-bitflip", "sig-truncate", "sig-extend", "sig-other-key", "sig-other-hash", "key-other", "key-extend", "key-truncate", "hash-bitflip", "hash-other"}).Draw(t, "tamper")
